@@ -355,6 +355,44 @@ theorem swapped_order_counterexample :
   rw [hd, hu]
   decide
 
+/-! ### where "every apply succeeds" fails in the real store: the unique NAME index of policies/roles
+
+    Not covered by `round_correct` (which is about ID-keyed content): the upserts of a round are
+    sent as one batch in ID order and each is checked against the not-yet-updated rows. Two
+    ordinary renames in the primary between two rounds (Y: beta→gamma, then X: alpha→beta, X < Y)
+    make the batch [X, Y] fail — although the same batch in the order [Y, X] would succeed — and a
+    full name swap fails in either order. The round returns the error and so does every later
+    round. Reproduced on the real servers by the harness (`observed:…name-held-by-row-updated-in-same-batch`). -/
+
+def nX : Bytes := [1]
+def nY : Bytes := [2]
+def nAlpha : Bytes := [97]
+def nBeta : Bytes := [98]
+def nGamma : Bytes := [99]
+
+theorem name_chain_counterexample :
+    nBatch [⟨nX, nAlpha⟩, ⟨nY, nBeta⟩] [⟨nX, nBeta⟩, ⟨nY, nGamma⟩] = none ∧
+    nBatch [⟨nX, nAlpha⟩, ⟨nY, nBeta⟩] [⟨nY, nGamma⟩, ⟨nX, nBeta⟩] = some [⟨nY, nGamma⟩, ⟨nX, nBeta⟩] := by
+  decide
+
+theorem name_swap_counterexample :
+    nBatch [⟨nX, nAlpha⟩, ⟨nY, nBeta⟩] [⟨nX, nBeta⟩, ⟨nY, nAlpha⟩] = none ∧
+    nBatch [⟨nX, nAlpha⟩, ⟨nY, nBeta⟩] [⟨nY, nAlpha⟩, ⟨nX, nBeta⟩] = none := by
+  decide
+
+/-- a batch whose names collide with no row outside itself and with no other element is applied:
+    the simplest sufficient condition (what the round model silently assumes) -/
+theorem nBatch_single_ok (s : List NRow) (x : NRow)
+    (h : ∀ y ∈ s, lowerBytes y.name = lowerBytes x.name → y.id = x.id) :
+    nBatch s [x] = some ((s.filter fun y => lowerBytes y.id != lowerBytes x.id) ++ [x]) := by
+  have : s.any (fun y => lowerBytes y.name == lowerBytes x.name && y.id != x.id) = false := by
+    rw [List.any_eq_false]
+    intro y hy
+    by_cases e : lowerBytes y.name = lowerBytes x.name
+    · simp [e, h y hy e]
+    · simp [e]
+  simp [nBatch, nUpsert, this]
+
 /-! ### non-vacuity: a concrete ACL round that meets the hypotheses (IDs 1,2,3,4, one legacy
     empty-ID token; `last = 5`, remote index 9; remote `2` unchanged since index 3, remote `1`
     changed at 8) -/
